@@ -428,9 +428,23 @@ BLOCKS = {
 }
 
 
-def nesting_ast(names):
-    """names: block kinds, outermost first."""
+def nesting_ast(names, abort=None):
+    """names: block kinds, outermost first.  abort: the innermost body is
+    left abnormally - 'raise' (a callable raises; an enclosing try handles
+    it) or 'return' (a sub-template returns from inside its own loop)."""
     inner = probes('in%d' % len(names))
+    if abort == 'raise':
+        inner = inner + [_v('fr')]
+    elif abort == 'return':
+        inner = inner + [_v('tl')] + probes('after-sub')
+    if abort == 'raise':
+        body = inner
+        for depth in range(len(names), 0, -1):
+            blk = BLOCKS[names[depth - 1]](body)
+            body = probes('b%d' % depth) + [blk] + probes('not-reached')
+        return [dict(k='try', body=body, handlers=[dict(
+            names=['VfA'], body=probes('handler'))],
+            **{'else': None, 'finally': None})] + probes('end') + [_v('ta')]
     for depth in range(len(names), 0, -1):
         blk = BLOCKS[names[depth - 1]](inner)
         inner = probes('b%d' % depth) + [blk] + probes('a%d' % depth) + \
@@ -440,7 +454,7 @@ def nesting_ast(names):
 
 def run_nesting(case):
     names, syntax, pick = case[1], case[2], case[3]
-    ast = nesting_ast(names)
+    ast = nesting_ast(names, case[4] if len(case) > 4 else None)
     return run_random(dict(ast=ast, style=[pick], picks=[pick, pick + 7, 3,
                                                          pick * 5 + 1, 11],
                            syntax=syntax), probes_added=True)
@@ -489,13 +503,16 @@ def run_shard(shard):
             combos += [[shard['outer'], b, c] for b in kinds for c in kinds]
         for k, names in enumerate(combos):
             for sx in ('dtml', 'ssi', 'epfs'):
-                case = ['nesting', names, sx, k % 5]
-                bad = run_nesting(case)
-                acc.case(case, True, klass='nesting-depth-%d' % len(names),
-                         distinct_by_construction=True)
-                if bad and bad != 'unspecified':
-                    acc.fail(bad[0].replace('scoping', 'nesting'), case,
-                             bad[1])
+                for abort in (None, 'raise', 'return'):
+                    case = ['nesting', names, sx, k % 5] + (
+                        [abort] if abort else [])
+                    bad = run_nesting(case)
+                    acc.case(case, True, klass='nesting-depth-%d%s' % (
+                        len(names), '-' + abort if abort else ''),
+                        distinct_by_construction=True)
+                    if bad and bad != 'unspecified':
+                        acc.fail(bad[0].replace('scoping', 'nesting'), case,
+                                 bad[1])
     elif shard['kind'] == 'underscore':
         for where in ['client', 'client-tuple', 'kw', 'vars', 'mapping',
                       'ctor_kw', 'ctor_map']:
